@@ -2,6 +2,7 @@ import KoordVerif.Common.Proto
 import KoordVerif.Model.C11
 import KoordVerif.Model.C11Rounds
 import KoordVerif.Model.C11Decode
+import KoordVerif.Model.C11E2E
 /-
 Driver for C11.  A case is a list of declaration lines followed by one command line.
 
@@ -18,7 +19,7 @@ Driver for C11.  A case is a list of declaration lines followed by one command l
    rawpod <id> <name> <qosLabel> <kubeQoS> <phase> <hasSpec> <spec> <clsLabel> <evictLabel> <epKind> <epVal>
        <lpKind> <lpVal> <policyTop> <hasMetric> <used> <reqNative> <reqMid> <reqBatch> <batchReq> <nElems> <elem>*
        the same pod by label / annotation SHAPES (Model/C11Decode.lean decodes them); kinds: 0 absent 1 literal 2 malformed
-   selprio <threshold> <byReq> | selbemem | selbecpu
+   selprio <threshold> <byReq> [<isMemory>] | selbemem | selbecpu
  output: one `info <id> <evictPrio> <prio> <labelPrio> <used> <request>` per selected pod in eviction order
          (pods with equal sort keys are listed by id), then `end`
    tgt <capacity> <used> <threshold> <hasLower> <lower> <buffer>   ->  `tgt none` | `tgt <amount>`
@@ -48,6 +49,7 @@ structure Acc where
   script : List Bool := []
   pods   : List Pod := []
   exec   : Option Exec := none
+  raws   : List RawPod := []
 
 def parseTask (xs : List Int) : Option Task :=
   match xs with
@@ -82,18 +84,18 @@ def parsePod (xs : List Int) : Option Pod :=
 def numText (kind v : Int) : Option NumText :=
   if kind = 0 then some .absent else if kind = 1 then some (.literal v) else if kind = 2 then some .malformed else none
 
-def parseRawPod (xs : List Int) : Option Pod :=
+def parseRawPod (xs : List Int) : Option RawPod :=
   match xs with
   | id :: name :: ql :: kq :: ph :: hs :: sp :: cl :: el :: epk :: epv :: lpk :: lpv :: pt :: hm :: used ::
       rn :: rm :: rb :: breq :: n :: elems =>
     if elems.length ≠ n.toNat ∨ ql < 0 ∨ kq < 0 ∨ ph < 0 ∨ cl < 0 ∨ el < 0 ∨ pt < 0 ∨ elems.any (· < 0) then none else
     match numText epk epv, numText lpk lpv with
     | some ep, some lp =>
-      some (decodePod { id := id.toNat, name := name.toNat, qosLabel := ql.toNat, kubeQoS := kq.toNat, phase := ph.toNat,
+      some ({ id := id.toNat, name := name.toNat, qosLabel := ql.toNat, kubeQoS := kq.toNat, phase := ph.toNat,
                         specPrio := optI hs sp, clsLabel := cl.toNat, evictLabel := el.toNat, evictPrio := ep,
                         prioLabel := lp, policyTop := pt.toNat, policyElems := elems.map Int.toNat,
                         hasMetric := hm ≠ 0, used := used, reqNative := rn, reqMid := rm, reqBatch := rb,
-                        batchReq := breq })
+                        batchReq := breq } : RawPod)
     | _, _ => none
   | _ => none
 
@@ -152,6 +154,10 @@ def showInfo (i : Info) : String :=
 def runSel (a : Acc) (cmd : List Int) (kind : String) : List String :=
   let pods := a.pods.reverse
   match kind, cmd with
+  | "selprio", [thr, byReq, isMem] =>
+    let out := if isMem ≠ 0 then selectPrioMem thr (byReq ≠ 0) pods else selectPrio thr (byReq ≠ 0) pods
+    let same := fun (x y : Info) => !prioLess (byReq ≠ 0) x y && !prioLess (byReq ≠ 0) y x
+    (canonRuns same [] out).map showInfo ++ ["end"]
   | "selprio", [thr, byReq] =>
     let out := selectPrio thr (byReq ≠ 0) pods
     let same := fun (x y : Info) => !prioLess (byReq ≠ 0) x y && !prioLess (byReq ≠ 0) y x
@@ -165,6 +171,127 @@ def runSel (a : Acc) (cmd : List Int) (kind : String) : List String :=
     let same := fun (x y : Info) => !beCpuLess x y && !beCpuLess y x
     (canonRuns same [] out).map showInfo ++ ["end"]
   | _, _ => ["bad-op"]
+
+/-- float64 part of calculateReleaseByAllocatableThresholdPercent:
+    `rq/sum > thr/100` ⇒ `int64((rq/sum - lower/100)*sum)`. -/
+def allocFloat (rq sum thr lower : Int) : Option Int :=
+  let r := Float.ofInt rq / Float.ofInt sum
+  if r > Float.ofInt thr / 100 then some ((r - Float.ofInt lower / 100) * Float.ofInt sum).toInt64.toInt else none
+
+def showTask (f : Nat) : Option Task → String
+  | none => s!"task {f} none"
+  | some t =>
+    let to := t.toRelease.foldl (fun s ra => s ++ s!" {ra.1} {ra.2}") ""
+    let ps := t.pods.foldl (fun s e => s ++ s!" {e.pod}") ""
+    s!"task {f} {t.toRelease.length}{to} {t.pods.length}{ps}"
+
+def featIdx : MemFeature → Nat
+  | .be => 0 | .alloc => 1 | .mem => 2
+
+/-- `e2emem <beOn> <allocOn> <memOn> (<has> <v>)×6 [thr lower prioThr aThr aLower aPrioThr] <capacity>
+     (<has> <v>)×4 [nodeUsed allocMem allocBatch allocMid]`, after `rawpod`, `isev`, `script` lines.
+    Output: `task <f> …` for the three features as buildEvictTask returns them, then the run of memoryEvict():
+    `skip` | `evict <f> <pod> <ok>`* `newly <0|1>`. -/
+def runE2EMem (a : Acc) (xs : List Int) : Option (List String) :=
+  match xs with
+  | [beOn, allocOn, memOn, h1, thr, h2, lower, h3, prioThr, h4, aThr, h5, aLower, h6, aPrio, cap,
+     h7, used, h8, am, h9, ab, h10, amid] =>
+    let c : MemCfg := { beOn := beOn ≠ 0, allocOn := allocOn ≠ 0, memOn := memOn ≠ 0, thr := optI h1 thr,
+                        lower := optI h2 lower, prioThr := optI h3 prioThr, aThr := optI h4 aThr,
+                        aLower := optI h5 aLower, aPrioThr := optI h6 aPrio, capacity := cap,
+                        nodeUsed := optI h7 used, allocMem := optI h8 am, allocBatch := optI h9 ab,
+                        allocMid := optI h10 amid }
+    let pods := a.raws.reverse
+    -- buildEvictTask divides by the capacity; the harness only calls it directly when capacity > 0
+    let built := if cap ≤ 0 then [] else
+      [MemFeature.be, .alloc, .mem].map fun f => showTask (featIdx f) (memTask allocFloat c pods f)
+    let ts := memTasks allocFloat c pods
+    let run := match memoryEvict allocFloat c pods (fun p => a.isev.contains p) a.script with
+      | none => ["skip"]
+      | some st =>
+        (st.logRev.reverse.filterMap fun ev =>
+          let f := (ts[ev.task]?.map (fun ft => featIdx ft.1)).getD 9
+          match ev.kind with
+          | .ok => some s!"evict {f} {ev.e.pod} 1"
+          | .fail => some s!"evict {f} {ev.e.pod} 0"
+          | .pending => none) ++ [s!"newly {b2i st.newly}"]
+    some (built ++ run)
+  | _ => none
+
+/-- float64 part of cpuevict.calculateMilliReleaseByAllocatableThresholdPercent:
+    `rq/sum > thr/100` ⇒ `int64(rq - lower/100*sum)`. -/
+def cpuAllocFloat (rq sum thr lower : Int) : Option Int :=
+  let rqF := Float.ofInt rq
+  let sumF := Float.ofInt sum
+  if rqF / sumF > Float.ofInt thr / 100 then some (rqF - Float.ofInt lower / 100 * sumF).toInt64.toInt else none
+
+/-- isBECPUUsageHighEnough -/
+def beUsageHigh (usage limit : Float) (thr : Option Int) : Bool :=
+  if limit ≤ 0 then false else
+  if limit < 1000 then true else
+  !(usage / limit < Float.ofInt (thr.getD 90) / 100)
+
+/-- calculateResourceMilliToReleaseBySatisfaction -/
+def beSatRelease (request limit : Float) (low up : Int) : Int :=
+  if request ≤ 0 then 0 else
+  let sat := limit / request
+  if sat > Float.ofInt low / 100 then 0 else
+  let gap := Float.ofInt up / 100 - sat
+  if gap ≤ 0 then 0 else (request * gap).toInt64.toInt
+
+/-- calculateMilliReleaseByBESatisfaction (collect interval 1 s); metrics as (error, avg, current, count). -/
+def beSatTarget (window : Int) (byAlloc : Bool) (usageThr : Option Int) (low up : Int) (beAlloc : Float)
+    (mU mR mL : Int × Int × Int × Int) : Option Int :=
+  let val := fun (m : Int × Int × Int × Int) (cur : Bool) => if m.1 ≠ 0 then (0.0 : Float) else Float.ofInt (if cur then m.2.2.1 else m.2.1)
+  let cnt := fun (m : Int × Int × Int × Int) => if m.1 ≠ 0 then (0 : Int) else m.2.2.2
+  let count := min (cnt mU) (min (cnt mR) (cnt mL))
+  let avgL := if byAlloc then beAlloc else val mL false
+  if count * 1 < Int.tdiv window 3 then none else
+  if !beUsageHigh (val mU false) avgL usageThr then none else
+  let rel := beSatRelease (val mR false) avgL low up
+  if rel ≤ 0 then none else
+  let curL := if byAlloc then beAlloc else val mL true
+  if !beUsageHigh (val mU true) curL usageThr then none else
+  if val mR true == val mR false && curL == avgL then some rel else
+  let relC := beSatRelease (val mR true) curL low up
+  if relC ≤ 0 then none else
+  some (if relC < rel then relC else rel)
+
+def cpuFeatIdx : CpuFeature → Nat
+  | .be => 0 | .alloc => 1 | .cpu => 2
+
+/-- `e2ecpu <beOn> <allocOn> <cpuOn> (<has> <v>)×8 [lowP upP thr lower prioThr aThr aLower aPrioThr] <capacity>
+     (<has> <v>)×4 [nodeUsed allocCpu allocBatch allocMid] <window> <byAllocatable> <hasUsageThr> <usageThr>
+     (<err> <avg> <cur> <count>)×3 [BE usage, BE request, BE real limit]`.  Output as for `e2emem`. -/
+def runE2ECpu (a : Acc) (xs : List Int) : Option (List String) :=
+  match xs with
+  | beOn :: allocOn :: cpuOn :: h1 :: lowP :: h2 :: upP :: h3 :: thr :: h4 :: lower :: h5 :: prioThr :: h6 :: aThr ::
+      h7 :: aLower :: h8 :: aPrio :: cap :: h9 :: used :: h10 :: ac :: h11 :: ab :: h12 :: amid :: window :: byAlloc ::
+      h13 :: usageThr :: e1 :: a1 :: c1 :: n1 :: e2 :: a2 :: c2 :: n2 :: e3 :: a3 :: c3 :: n3 :: [] =>
+    let beAlloc : Float := match optI h11 ab with
+      | none => -1
+      | some v => if v < 0 then -1 else if v = 0 then 1 else Float.ofInt v
+    let bt := beSatTarget window (byAlloc ≠ 0) (optI h13 usageThr) ((optI h1 lowP).getD 0) ((optI h2 upP).getD 0) beAlloc
+      (e1, a1, c1, n1) (e2, a2, c2, n2) (e3, a3, c3, n3)
+    let c : CpuCfg := { beOn := beOn ≠ 0, allocOn := allocOn ≠ 0, cpuOn := cpuOn ≠ 0, lowP := optI h1 lowP, upP := optI h2 upP,
+                        beTarget := bt, thr := optI h3 thr, lower := optI h4 lower, prioThr := optI h5 prioThr,
+                        aThr := optI h6 aThr, aLower := optI h7 aLower, aPrioThr := optI h8 aPrio, capacity := cap,
+                        nodeUsed := optI h9 used, allocCpu := optI h10 ac, allocBatch := optI h11 ab, allocMid := optI h12 amid }
+    let pods := a.raws.reverse
+    let built := if cap ≤ 0 then [] else
+      [CpuFeature.be, .alloc, .cpu].map fun f => showTask (cpuFeatIdx f) (cpuTask floatUsage cpuAllocFloat c pods f)
+    let ts := cpuTasks floatUsage cpuAllocFloat c pods
+    let run := match cpuEvict floatUsage cpuAllocFloat c pods (fun p => a.isev.contains p) a.script with
+      | none => ["skip"]
+      | some st =>
+        (st.logRev.reverse.filterMap fun ev =>
+          let f := (ts[ev.task]?.map (fun ft => cpuFeatIdx ft.1)).getD 9
+          match ev.kind with
+          | .ok => some s!"evict {f} {ev.e.pod} 1"
+          | .fail => some s!"evict {f} {ev.e.pod} 0"
+          | .pending => none) ++ [s!"newly {b2i st.newly}"]
+    some (built ++ run)
+  | _ => none
 
 def runTgt (xs : List Int) : List String :=
   match xs with
@@ -203,7 +330,15 @@ def runCase (lines : List String) : List String :=
             | none => out ++ ["bad-op"]
           | "rawpod" =>
             match parseRawPod xs with
-            | some p => go { a with pods := p :: a.pods } out rest
+            | some rp => go { a with pods := decodePod rp :: a.pods, raws := rp :: a.raws } out rest
+            | none => out ++ ["bad-op"]
+          | "e2emem" =>
+            match runE2EMem a xs with
+            | some o => go {} (out ++ o) rest
+            | none => out ++ ["bad-op"]
+          | "e2ecpu" =>
+            match runE2ECpu a xs with
+            | some o => go {} (out ++ o) rest
             | none => out ++ ["bad-op"]
           | "kill" => if xs.isEmpty then go {} (out ++ runKill a) rest else out ++ ["bad-op"]
           | "xcfg" =>
